@@ -9,9 +9,9 @@ import serverlib as sl
 
 
 def acl_gen(r, thorough):
-    return sl.acl_histories(r, thorough, types=("read", "publish")) + sl.kick_histories(r, thorough)
+    return sl.acl_histories(r, thorough, types=("read", "publish")) + sl.kick_histories(r, thorough) + sl.failed_event_histories(r, thorough) + sl.two_list_histories(r, thorough)
 
 
 def run(tier, replay=None):
     return srvprops.run(PROP, THEOREMS, tier, replay, extra_gen=acl_gen,
-                        rule_note="plus directed ACL histories (multi-domain allow-lists edited by add/remove batches, then probed by broadcasts) and directed removal histories (owner removes a member, drops, a namesake reconnects without joining, a member publishes)")
+                        rule_note="plus directed ACL histories (multi-domain allow-lists edited by add/remove batches, then probed by broadcasts) and directed removal histories (owner removes a member, drops, a namesake reconnects without joining, a member publishes) and failed-notification histories (a JOIN whose announcement fails is refused; the user comes back under the same name and must receive nothing of what the members publish)")
